@@ -600,10 +600,15 @@ class ProvRDFSerializer(Serializer):
                         + relation_mapper[pred][1:]
                     )
                     qualifier_bnode = None
+                    agent_pred = URIRef(pm.PROV["agent"].uri)
                     for stmt in graph.triples(
                         (URIRef(id), URIRef(pm.PROV[qualifier].uri), None)
                     ):
-                        qualifier_bnode = stmt[2]
+                        # the qualified relation restates this triple only if
+                        # it is about the same agent (or names none)
+                        agents = list(graph.objects(stmt[2], agent_pred))
+                        if not agents or obj in agents:
+                            qualifier_bnode = stmt[2]
                     if qualifier_bnode is None:
                         getattr(bundle, relation_mapper[pred])(id, str(obj))
                     else:
